@@ -311,16 +311,16 @@ impl AsCborValue for CoseKdfContext {
 
 /// Builder for [`CoseKdfContext`] objects.
 #[derive(Debug, Default)]
-pub struct CoseKdfContextBuilder(CoseKdfContext);
-
-«impl CoseKdfContextBuilder {
+pub struct CoseKdfContextBuilder(CoseKdfContext);«impl CoseKdfContextBuilder {
     // CoseKdfContext has private fields: the documented effects are stated through closed spec functions
     pub closed spec fn after_algorithm_id(self, alg: iana::Algorithm) -> CoseKdfContext { CoseKdfContext { algorithm_id: Algorithm::Assigned(alg), ..self.0 } }
     pub closed spec fn after_add_supp_priv_info(self, r: Self, x: Vec<u8>) -> bool {
         r.0 == (CoseKdfContext { supp_priv_info: r.0.supp_priv_info, ..self.0 }) && r.0.supp_priv_info@ == self.0.supp_priv_info@.push(x)
     }
 }
-»impl CoseKdfContextBuilder {
+»
+
+impl CoseKdfContextBuilder {
     
         /// Constructor for builder.
         pub fn new() -> Self {
